@@ -156,15 +156,22 @@ let verdict case impl =
         | [k; t; v] -> ((cs k, cs t), (if v = "N" then None else Some (chars_of_hexstr (String.sub v 1 (String.length v - 1)))))
         | _ -> failwith "bad row") (String.split_on_char ',' rows) in
     let (ks, t) = (match String.split_on_char ':' table with [k; t] -> (cs k, cs t) | _ -> failwith "bad table") in
-    let st = if mode = "x" then None else Some rows in
-    let in_md = (mode <> "u") in
+    (* mode = scenario (s: scylla_tables has exactly the rows, x: no such table, u: target table unknown
+       to the metadata, n: target table listed but without column rows) + fetch mode (f full, m minimal,
+       d disabled; absent = full) *)
+    let scen = String.sub mode 0 1 in
+    let fm = (if String.length mode < 2 then FetchFull else
+                match mode.[1] with 'm' -> FetchMinimal | 'd' -> FetchDisabled | _ -> FetchFull) in
+    let st = if scen = "x" then None else Some rows in
+    let in_md = (scen <> "u") in
+    let has_cols = (scen <> "n") in
     let key = bytes_of_hexstr key in
-    let p = prepared_partitioner st in_md (Some (ks, t)) in
+    let p = session_partitioner fm st in_md has_cols (Some (ks, t)) in
     let m_part = (match p with PMurmur3 -> "m" | PCdc -> "c") in
     let m_tok = "some:" ^ hex_of_z (feed p [key]) in
     if o_part = m_part && o_tok = m_tok then "ok"
     else begin
-      let want = (if mode <> "s" then None else
+      let want = (if scen <> "s" || fm = FetchDisabled then None else
                     match partitioners_get rows ks t None with
                     | Some (Some name) when ends_with name cdc_suffix -> Some (token_spec PCdc key)
                     | Some (Some name) when ends_with name murmur3_suffix -> Some (token_spec PMurmur3 key)
